@@ -69,6 +69,26 @@ Theorem C10_client_never_reuses_closed : forall vals noHTTP11 ic reset req_close
 Proof. exact client_never_reuses. Qed.
 Print Assumptions C10_client_never_reuses_closed.
 
+(* both transports (HostClient's RoundTrip and PipelineClient's reader): after a response that said close — or an
+   HTTP/1.0 response without keep-alive — HostClient closes the connection whatever its other inputs, and
+   PipelineClient writes every later request of the sequence on a different connection.
+   resps = (HTTP/1.1?, Connection values) of the successive responses. *)
+Theorem C10_clients_never_reuse_closed : forall (resps : list (bool * list bytes)) i j,
+  forallb (fun r => all_clean (snd r)) resps = true ->
+  (i < j)%nat -> (j < length resps)%nat ->
+  wants_close (fst (nth i resps (true, []))) (snd (nth i resps (true, []))) = true ->
+  let flags := map (fun r => resp_conn_flag (negb (fst r)) false (snd r)) resps in
+  (forall reset reqclose, client_close_conn reset reqclose (nth i flags false) = true) /\
+  nth i (pipeline_conn_ids 1 flags) 0%Z <> nth j (pipeline_conn_ids 1 flags) 0%Z.
+Proof. exact clients_never_reuse. Qed.
+Print Assumptions C10_clients_never_reuse_closed.
+
+Example C10_ex_pipeline :
+  pipeline_conn_ids 1 (map (fun r => resp_conn_flag (negb (fst r)) false (snd r))
+     [(true, []); (true, [s2b "Close"]); (true, [s2b "keep-alive"]); (false, []); (false, [s2b "keep-alive"]); (true, [])])
+  = [1; 1; 2; 2; 3; 3]%Z.
+Proof. vm_compute. reflexivity. Qed.
+
 (* regression witness: a close option behind an HTAB is recognised by both parsers (it was not before stripSpace
    learned about HTAB) *)
 Example C10_ex_htab : clean htab_value = true /\ has_close [htab_value] = true
